@@ -35,6 +35,7 @@
 #include <dlfcn.h>
 #include <errno.h>
 #include <fcntl.h>
+#include <signal.h>
 #include <stdarg.h>
 #include <stdint.h>
 #include <stdio.h>
@@ -405,6 +406,9 @@ static long write_decision(long idx, const char *call, int fd, size_t count, con
         if (en->kind == K_EINTR || en->kind == K_ERR) {
             *err = en->kind == K_EINTR ? EINTR : (int)en->arg;
             *fault = en->kind == K_EINTR ? "eintr" : "err";
+            /* a write to a pipe whose reader has gone: the kernel also sends SIGPIPE (ignored by a Rust program
+             * unless it resets the disposition) */
+            if (en->kind == K_ERR && en->arg == EPIPE) raise(SIGPIPE);
             return -1;
         }
         if (en->kind == K_SHORT && en->arg >= 1 && (size_t)en->arg < count) {
